@@ -71,7 +71,7 @@ func (it *Interp) intrinsic(name string, fn *ssa.Function, a []Val) Val {
 	case "BigInt":
 		return Ptr(newVal(IntV{it.newSource("bigint", it.cstr(a[0], "tag"), SInt)}))
 	case "Time":
-		return TimeV{it.newSource("time", it.cstr(a[0], "tag"), SInt)}
+		return TimeV{it.freshTime(it.cstr(a[0], "tag"))}
 	case "Fresh", "FreshOpt":
 		iv := a[0].(IfaceV)
 		ptr, ok := iv.V.(Ptr)
